@@ -13,7 +13,7 @@ SAFE = re.compile(r'^[^"\\\x00-\x1f]*$')
 
 ID_MENUS = {
     'plain': (['b10', 'b9', 'c'], ['S2', 'S10', 'z']),
-    'nasty': (['q"uote', 'back\\slash', 'ctl\x01\ttab'], ['é/ü', 'new\nline', '{"a":[1,2]}']),
+    'nasty': (['q"uote', 'back\\slash', 'ctl\x01\ttab'], ['é/ü', '{"a":[1,2,]} ,}', 'new\nline']),
 }
 MD_MENUS = {
     'none': lambda ids: None,
@@ -95,13 +95,22 @@ def _varname(term):
     return None
 
 
-def h_json(nr, nc, idk, mdk, header, direct, reader='from_json'):
+# shortest-repr texts in and out of exponent notation, exponents ending in 0, denormals, 17 significant digits (plain enumeration facet)
+VALUE_MENU = [1e-10, 3e+20, 1e+300, -2.5e-30, 1e-07, 1.5e+17, 5e-324, 123456789.12345679, 0.1, 3.0, -0.0001, 1e+16]
+
+
+def h_json(nr, nc, idk, mdk, header, direct, reader='from_json', value_menu=False):
     b = B()
     sym = b.mode == 'sym'
     oids, sids = ID_MENUS[idk]
     oids, sids = oids[:nr], sids[:nc]
-    cells, dense = sym_matrix(nr, nc, zeros=1)
-    data, indices, indptr, _ = build_csr(cells)
+    if value_menu:
+        dense = [[VALUE_MENU[choice(len(VALUE_MENU), f'value{i}{j}')] for j in range(nc)] for i in range(nr)]
+        cells = [list(r) for r in dense]
+        data, indices, indptr = [v for r in dense for v in r], [j for r in dense for j in range(nc)], [i * nc for i in range(nr + 1)]
+    else:
+        cells, dense = sym_matrix(nr, nc, zeros=1)
+        data, indices, indptr, _ = build_csr(cells)
     from sx.harness import _arr
     m = b.csr((_arr(data), indices, indptr), shape=(nr, nc))
     omd, smd = _md(mdk, oids), _md('none' if mdk == 'numpy-scalars' else mdk, sids)
@@ -172,7 +181,9 @@ def h_json(nr, nc, idk, mdk, header, direct, reader='from_json'):
         class _J:
             loads = staticmethod(lambda text, **k: parsed)
             load = staticmethod(lambda fh, **k: parsed)
-        P.json = _J
+        # symbolic text cannot go through the C decoder (it hands over the document checked above); concrete runs -- replays and
+        # the fallback of paths on which the reader pre-processes the text -- use the real one
+        P.json = _J if sym else json
         if reader == 'parse_table:text':
             t2, e = call(lambda: P.parse_biom_table(doc))
         elif reader == 'parse_table:lines':
@@ -210,7 +221,7 @@ def h_json(nr, nc, idk, mdk, header, direct, reader='from_json'):
         if header == 'symbolic':
             got.type = None
         same_table('json:roundtrip', got, exp, type_=True, **sig)
-    if not sym:
+    if not sym or value_menu:
         # exactness: every value must come back bit-identical (no tolerance)
         bad = [(i, j, got.dense[i][j], dense[i][j]) for i in range(nr) for j in range(nc) if float(got.dense[i][j]) != float(dense[i][j])]
         if bad:
@@ -291,6 +302,8 @@ def jobs(tier):
                 out.append(('json', (nr, nc, 'nasty', 'mixed', 'concrete', False, reader)))
         for mdk in ('none', 'mixed'):
             out.append(('stream_equals_string', (nr, nc, mdk)))
+    for direct in (False, True):
+        out.append(('json', (1, 2, 'plain', 'none', 'concrete', direct, 'from_json', True)))
     return out
 
 
